@@ -27,3 +27,8 @@
 (declare-fun str_of (Int Int) Str)
 (assert (forall ((s Str)) (! (= (str_of (str_data s) (slen s)) s) :pattern ((str_data s)))))
 (assert (forall ((s Str)) (! (>= (str_data s) 0) :pattern ((str_data s)))))
+; index of the last occurrence of byte c in s, or -1 (strings.LastIndex with a one-byte needle)
+(declare-fun str_last (Str Int) Int)
+(assert (forall ((s Str) (c Int)) (! (=> (>= (slen s) 0) (and (<= (- 1) (str_last s c)) (< (str_last s c) (slen s))
+    (=> (>= (str_last s c) 0) (= (select (sarr s) (str_last s c)) c)))) :pattern ((str_last s c)))))
+(assert (forall ((s Str) (c Int) (k Int)) (! (=> (and (>= (slen s) 0) (< (str_last s c) k) (< k (slen s))) (not (= (select (sarr s) k) c))) :pattern ((str_last s c) (select (sarr s) k)))))
